@@ -9,6 +9,7 @@ CONSTANTS
   UseUntil = FALSE
   PreStarted = TRUE
   FixedStopOrder = 1
+  ResetInRun = FALSE
 SPECIFICATION Spec
 INVARIANT NoStopOrderWindow
 INVARIANT NoFinalRevoked
